@@ -1,6 +1,8 @@
 CONSTANTS
   N = 5
   Sizes = {1, 3}
+  GenMaxN = 5
+  GenMod = 1
   PackLimits <- MCLimits
   PackModes <- MCModes
 INIT MInit
